@@ -41,6 +41,9 @@ type C18Case struct {
 	// travel over one link
 	Pool int   `json:"pool,omitempty"`
 	Skew []int `json:"skew,omitempty"`
+	// Early: every consumer first tries to subscribe before the event is registered (must be
+	// refused and leave nothing behind: the later subscriptions work as usual)
+	Early bool `json:"early,omitempty"`
 }
 
 type c18 struct{}
@@ -134,6 +137,7 @@ func (c18) Generate(r *simkit.Rand, tier string) any {
 			c.Skew = append(c.Skew, simkit.Pick(r, 1, 1, 2, 10, 100))
 		}
 	}
+	c.Early = r.Chance(0.3)
 	for i, n := 0, r.Range(1, 4); i < n; i++ {
 		a := C18Actor{Role: "consumer", Link: r.Bool(), Remote: remote && r.Bool()}
 		a.Third = a.Remote && three && r.Bool()
@@ -176,6 +180,11 @@ func (c18) Shrink(cc any) []any {
 	if c.Pool > 1 {
 		n := cloneJSON(c)
 		n.Pool, n.Skew = 0, nil
+		out = append(out, n)
+	}
+	if c.Early {
+		n := cloneJSON(c)
+		n.Early = false
 		out = append(out, n)
 	}
 	return out
@@ -283,6 +292,25 @@ func (c18) Run(e *simkit.Env, cc any) {
 	var pubs []c18Pub
 	var token gen.Ref
 	registered := make(chan struct{})
+	pres := make(chan struct{}, 16)
+	connected := false
+	connect := func() bool {
+		if !needRemote || connected {
+			return true
+		}
+		connected = true
+		if _, err := b.Network().GetNode("a@h1"); err != nil {
+			e.Fail("C18/unexpected-failure", "nodes could not connect: %v", err)
+			return false
+		}
+		if cn != nil {
+			if _, err := cn.Network().GetNode("a@h1"); err != nil {
+				e.Fail("C18/unexpected-failure", "nodes could not connect: %v", err)
+				return false
+			}
+		}
+		return true
+	}
 	nextNum := 0
 	endStart, endDone := -1, -1 // event end interval
 	endReason := ""
@@ -457,6 +485,20 @@ func (c18) Run(e *simkit.Env, cc any) {
 			h.Message = func(p *Probe, from gen.PID, m any) error {
 				switch v := m.(type) {
 				case string:
+					if v == "pre" {
+						var err error
+						if ac.Link {
+							_, err = p.LinkEvent(ev)
+						} else {
+							_, err = p.MonitorEvent(ev)
+						}
+						e.Logf("consumer%d subscribes before the event is registered -> %v", ai, err)
+						if err == nil {
+							e.Fail("C18/subscribed-to-unknown-event", "consumer %d (remote=%v): a subscription to an event that is not registered yet succeeded", ai, ac.Remote)
+						}
+						pres <- struct{}{}
+						return nil
+					}
 					if v != "go" {
 						return nil
 					}
@@ -541,22 +583,46 @@ func (c18) Run(e *simkit.Env, cc any) {
 		}
 		pids[ai] = pid
 	}
+	if c.Early {
+		if !connect() {
+			return
+		}
+		k := 0
+		for ai := range c.Actors {
+			if c.Actors[ai].Role != "consumer" {
+				continue
+			}
+			node := a
+			if c.Actors[ai].Remote {
+				node = b
+				if c.Actors[ai].Third {
+					node = cn
+				}
+			}
+			node.Send(pids[ai], "pre")
+			k++
+		}
+		for ; k > 0; k-- {
+			select {
+			case <-pres:
+			case <-time.After(time.Minute):
+				e.Fail("C18/unexpected-failure", "a subscription to an unregistered event did not return within a simulated minute")
+				return
+			}
+			e.Gate("harness:pre-done")
+		}
+		if e.Failed() {
+			return
+		}
+		e.Probe("refused-subscription-before-registration")
+	}
 	a.Send(pids[0], "register")
 	if !e.WaitChan(registered, time.Minute) {
 		e.Fail("C18/unexpected-failure", "the producer did not register its event")
 		return
 	}
-	if needRemote {
-		if _, err := b.Network().GetNode("a@h1"); err != nil {
-			e.Fail("C18/unexpected-failure", "nodes could not connect: %v", err)
-			return
-		}
-		if cn != nil {
-			if _, err := cn.Network().GetNode("a@h1"); err != nil {
-				e.Fail("C18/unexpected-failure", "nodes could not connect: %v", err)
-				return
-			}
-		}
+	if !connect() {
+		return
 	}
 	for ai := range c.Actors {
 		ai := ai
